@@ -1,5 +1,5 @@
 # C03 - reported content = infoset: the normalisation kernels (end-of-line handling, positions)
-CLAIMS = {'attnorm': 'IGXMLScanner::normalizeAttValue on every intermediate attribute value of <= N units (literal vs. referenced characters) x attribute type: result = XML 1.0 3.3.3 normalisation, literal < reported, memory safe', 'reader_eol': 'XMLReader::getNextChar + handleEOL on every character sequence of <= NC units, external/internal entity, NEL on/off, XML 1.0/1.1: delivered characters and line/column equal XML 2.11 end-of-line normalisation'}
+CLAIMS = {'attnorm_sg': 'as attnorm for SGXMLScanner::normalizeAttValue (the schema scanner has its own copy)', 'attnorm': 'IGXMLScanner::normalizeAttValue on every intermediate attribute value of <= N units (literal vs. referenced characters) x attribute type: result = XML 1.0 3.3.3 normalisation, literal < reported, memory safe', 'reader_eol': 'XMLReader::getNextChar + handleEOL on every character sequence of <= NC units, external/internal entity, NEL on/off, XML 1.0/1.1: delivered characters and line/column equal XML 2.11 end-of-line normalisation'}
 ASSUMPTIONS = ['hook: small reader window', 'the entity is at its end (no refill needed): refills are covered by C04/reader_chunks']
 TUS = ['internal/XMLReader.cpp', 'util/BinInputStream.cpp']
 HARNESSES = [
@@ -10,8 +10,11 @@ HARNESSES = [
       const_tables=['_ZN11xercesc_4_010XMLChar1_019fgCharCharsTable1_0E', '_ZN11xercesc_4_010XMLChar1_119fgCharCharsTable1_1E'],
       cuts=['_ZN11xercesc_4_010XMLScanner9emitErrorENS_7XMLErrs5CodesEPKDsS4_S4_S4_', '_ZN11xercesc_4_012XMLValidator9emitErrorENS_8XMLValid5CodesEPKDsS4_S4_S4_'] if False else [],
       defs={'quick': {'N': 4}, 'thorough': {'N': 5}}, unwind='2*N+3', unwind_gentle=True, unwind_cap=40, timeout={'quick': 900, 'thorough': 2400}, mem_gb=16),
+ dict(name='attnorm_sg', entry='harness_attnorm', srcs=['C03/attnorm.cpp', 'C03/scanstubs.cpp'], tus=['internal/SGXMLScanner.cpp', 'framework/XMLAttDef.cpp', 'framework/XMLBuffer.cpp', 'util/XMLChar.cpp', 'util/XMLString.cpp'],
+      const_tables=['_ZN11xercesc_4_010XMLChar1_019fgCharCharsTable1_0E', '_ZN11xercesc_4_010XMLChar1_119fgCharCharsTable1_1E'],
+      defs={'quick': {'N': 3, 'SCANNER': 'SGXMLScanner'}, 'thorough': {'N': 5, 'SCANNER': 'SGXMLScanner'}}, unwind='2*N+3', unwind_gentle=True, unwind_cap=40, timeout={'quick': 900, 'thorough': 2400}, mem_gb=16),
 ]
 LEVEL_TEXT = ('Bounded model checking of the real end-of-line normalisation and position tracking of the reader against a reference transcribed from XML 1.0/1.1 section 2.11, for ALL character sequences within the bound '
               '(CRLF, CR NEL, NEL, LSEP, lone CR; external vs. internal entities; NEL recognition on/off).')
-LEVEL_NOTE = ('Only the normalisation kernels are within reach. NOT claimed: the copies in the other scanners of attribute-value normalisation (SG/DG/WF scanners), tokenized types with REFERENCED tab/LF/CR (collapsed by this implementation, kept by XML 1.0: not judged), entity expansion, DTD defaulting, CDATA/comment/PI delivery, '
+LEVEL_NOTE = ('Only the normalisation kernels are within reach (end-of-line handling of the reader; attribute-value normalisation of the IG and SG scanners). NOT claimed: attribute-value normalisation of the DG and WF scanners, tokenized types with REFERENCED tab/LF/CR (collapsed by this implementation, kept by XML 1.0: not judged), entity expansion, DTD defaulting, CDATA/comment/PI delivery, '
               'agreement of the SAX/SAX2/DOM/pull adapters (whole-document behaviour).')
